@@ -326,6 +326,14 @@ def run_history(seed, prop, model, rep, length):
                 pend = rng.chance(1, 2)
                 if pend:
                     args.append("-p")
+                    if rng.chance(1, 3):
+                        # a deletion / move of a committed file that the pending map will record
+                        committed = [q for q in h.existing_files() if q in h.tree_of("HEAD")]
+                        if committed:
+                            if rng.chance(1, 2):
+                                h.op_delete(rng.pick(committed))
+                            else:
+                                h.op_move()
                 rc, j, out, err = r.mono(*args)
                 rep.evaluations += 1
                 rep.count("update_pending" if pend else "update")
@@ -395,7 +403,7 @@ def run_history(seed, prop, model, rep, length):
                                     targets=got_t, expected_targets=expect_t, changes=got_c):
                                 return
                         rep.count("reflag_checked")
-                if rng.chance(1, 2) and do_query(step):
+                if do_query(step):
                     return
             elif k < 82 and rng.chance(1, 2):
                 # HEAD does not resolve to a commit (an orphan branch before its first commit):
